@@ -17,7 +17,7 @@ def main(argv=None):
     cfgs = fam.l2_configs(defs, run.tier)
     bound = 1 if quick else 2
     jobs = [(c, bound, 6000 if quick else 60000, "c04") for c in cfgs]
-    extra = fam.l2_configs(seed_defs, run.tier, modes=fam.MODES[:3])
+    extra = fam.l2_configs(seed_defs, run.tier, modes=fam.MODES[:3], near=True)
     # the deeper (and longer) explorations go first so that the pool stays busy
     jobs = [(c, 2 if quick else 3, 20000 if quick else 200000, "c04") for c in extra] + jobs
     cfgs = extra + cfgs
